@@ -370,3 +370,52 @@ Theorem C14_read_fault_monitor_sound :
                          (sliced_pass_faulty force (option_map N.to_nat fault) x kind ns name) il) = true.
 Proof. exact fmonitor_sound. Qed.
 Print Assumptions C14_read_fault_monitor_sound.
+
+(** * Teardown with slices that are gone (repaired controller) *)
+
+(** What the teardown handler loads for a phase: the inline objects, then the objects of the referenced slices that
+    exist, in the order they are listed; a slice that does not exist contributes nothing and does not stop the loop. *)
+Theorem C14_teardown_loads_existing_slices :
+  forall st ns sp,
+    ph_objects (inline_phase st ns sp) = sp_objects sp ++ flat_map sl_objects (existing_slices st ns (sp_slices sp)).
+Proof. exact inline_phase_existing. Qed.
+Print Assumptions C14_teardown_loads_existing_slices.
+
+(** Hence a deleted / archived ObjectSet is torn down exactly like the inline ObjectSet that carries the objects of
+    the slices that exist - with NO hypothesis on the existence of slices (compare C14_sliced_fixed_equiv). *)
+Theorem C14_sliced_fixed_equiv_teardown :
+  forall force x kind ns name mem x' evs r,
+    find_set (sw_sets (xw_sw x)) kind ns name = Some mem ->
+    is_going mem = true ->
+    sliced_pass_fixed force x kind ns name = (x', evs, r) ->
+    objectset_pass force (inline_of x) kind ns name = (inline_of x', erase_slice_events evs, r) /\
+    xw_refs x' = xw_refs x /\ xw_sl x' = xw_sl x.
+Proof. exact sliced_fixed_equiv_teardown. Qed.
+Print Assumptions C14_sliced_fixed_equiv_teardown.
+
+(** * The ObjectDeployment controller's view of a sliced revision *)
+
+(** getObjectsIncludingSlices: if every referenced slice exists, the archive reconciler sees exactly the objects
+    (identifiers with the namespace defaulted to the ObjectSet's) of the ObjectSet with the slices inlined. *)
+Theorem C14_deploy_objects_inline :
+  forall st t s l,
+    deploy_objects st t s = Some l ->
+    Permutation.Permutation l (map (spec_key (inline_set st t s)) (all_objects (inline_set st t s))).
+Proof. exact deploy_objects_inline. Qed.
+Print Assumptions C14_deploy_objects_inline.
+
+(** ... and if a referenced slice does not exist there is no view at all. *)
+Theorem C14_deploy_objects_none :
+  forall st t s, deploy_objects st t s = None <-> slices_exist st t s = false.
+Proof. exact deploy_objects_none. Qed.
+Print Assumptions C14_deploy_objects_none.
+
+Theorem C14_deploy_objects_monitor_sound :
+  forall s refs slices,
+    let t := [(oi_kind (os_id s), oi_ns (os_id s), oi_name (os_id s), refs)] in
+    omonitor {| oc_set := s; oc_refs := refs; oc_slices := slices;
+                oc_err := match deploy_objects slices t s with Some _ => false | None => true end;
+                oc_keys := match deploy_objects slices t s with Some l => l | None => [] end;
+                oc_inline := map (spec_key (inline_set slices t s)) (all_objects (inline_set slices t s)) |} = true.
+Proof. exact omonitor_sound. Qed.
+Print Assumptions C14_deploy_objects_monitor_sound.
